@@ -285,6 +285,27 @@ PROPS['C12'] = {
     'bounded': ['helpersearch'],
 }
 PROPS['C07']['units'].append('contains')
+PROPS['C08'] = {
+    'units': ['errgate', 'merge'],
+    'title': 'a recorded parse error ends the run with an error before anything is written (error-gate kernel)',
+    'technique': 'Verus contracts on cli/src/main.rs::check_parse_errors and ::generate_types (extracted verbatim; BTreeMap::values().filter(P) as a '
+                 'loop over the values with `if P`, the predicate kept from the source) with the property as the PRECONDITION of the only function that '
+                 'writes output (write_generated); plus the error-conservation clauses of ParsedData::add_assign, TypeShareVisitor::collect_result and '
+                 'the sort block of reconcile_aliases (unit merge)',
+    'level_text': 'For every set of per-crate parse results: check_parse_errors answers Err exactly when some crate carries a recorded error; in '
+                  'generate_types every path to write_generated - the only callee that creates or modifies output files - passes a check that answered '
+                  'Ok on the very data handed to the writer, so a run with a recorded error returns Err and writes nothing; a failed item is recorded as '
+                  'an error of its file (collect_result) and recorded errors survive merging per-file results and alias sorting (add_assign, sort block).',
+    'level_note': 'Kernel: from "an error was recorded" to "the run fails and nothing is written". That the parser RECORDS an error for each '
+                  'construct on the property\'s list (u64 / i64 / usize / isize, tuples, several-field tuple structs / variants, serde(flatten), '
+                  'data enums without tag + content, tag / content on unit enums, non-integer-literal consts; at any depth, via serialized_as) and that '
+                  'skip removes it is syn code (TryFrom<&syn::Type>, parse_struct / parse_enum / parse_const): NOT proved, bounded stand-in '
+                  'cli_unsupported on the real binary. Assumed: reconcile_aliases / all_types neither add nor drop errors at map level; '
+                  'write_generated is the only writer; an Err from parallel_parse propagates by `?` (visible in the verified text).',
+    'design_ref': 'DESIGN.md section 10.13',
+    'bounded': ['cli_unsupported'],
+}
+PROPS['C07']['units'].append('errgate')
 PROPS['C03']['bounded'] = ['merge', 'tos']
 PROPS['C06']['bounded'] = ['merge', 'cli_determinism']
 PROPS['C11']['bounded'] = ['topo', 'deps']
@@ -296,10 +317,6 @@ PROPS['C20']['bounded'] = ['cfg_all', 'cli_config']
 PROPS['C07']['bounded'] = ['rename', 'topo', 'cli_robust']
 
 NOT_APPLICABLE = {
-    'C08': 'the rejections live in TryFrom<&syn::Type> and in parse_struct / parse_enum / parse_const, which take syn values: Verus cannot load syn '
-           '(single-file only) and the functions are iterator-adapter chains over syn types, the Kani compiler crashes on anything reaching '
-           'proc_macro2 / syn; "no output file is written or modified" is an ordering of effects across parallel_parse, check_parse_errors and the '
-           'dyn Language writers that no contract within reach states - see DESIGN.md section 6',
     'C10': 'syntactic well-formedness of a whole output file is a statement about the grammar of six target languages; contracts here can state '
            'fragments the property names (a type expression: C05, a member with its optional marker: C04, comment lines: C15) but not that a file '
            'parses - that needs the grammars as specification and a proof over every writer - see DESIGN.md section 6 and section 9',
